@@ -9,6 +9,9 @@ import Evenio.Proofs.Inv.Lists
 import Evenio.Proofs.Inv.Exec
 import Evenio.Proofs.Inv.StoreAll
 import Evenio.Proofs.Inv.Cache
+import Evenio.Proofs.Inv.ExecChecks
+import Evenio.Proofs.Inv.FactsConfig
+import Evenio.Proofs.Inv.FactsRemove
 /-! Everything about the logical world invariant in one environment: definitions (`WInv.lean`), the calculus, the
     obligations, the group independent glue, the seeds of the group files and the bridge to the executable invariant.
     `lake build Evenio.Proofs.Inv.All`.  Plan: `Evenio/Proofs/WInvPlan.md`. -/
